@@ -1,5 +1,6 @@
 import RgVerif.Driver.SearcherCommon
 import RgVerif.Spec.MaxCount
+import RgVerif.Driver.C02
 namespace RgVerif.Driver.C16
 open RgVerif RgVerif.Driver.SearcherCommon
 
@@ -47,6 +48,9 @@ def handle (cmd : String) (args : List Sx) : String :=
   | "c16.path" => handlePath args
   | "c16.quitindex" => handleQuitIndex args
   | "c16.summaryquit" => handleSummaryQuit args
+  -- `c16.rbl cfg matcher inp (script …) cap|- heap|- sink`: `Searcher::search_reader` in the model
+  -- (`Model/ReadByLine.searchReader`, the subject of `Props/C16Reader.lean`); same request as `c02.rbl`
+  | "c16.rbl" => RgVerif.Driver.C02.handle "c02.rbl" args
   | _ => "bad-op"
 
 end RgVerif.Driver.C16
